@@ -551,7 +551,7 @@ def log_pass_records(lp):
 
 @st.composite
 def lis_files(draw, max_passes=3, max_frames=60, tif_options=('none', 'normal', 'reversed'), allow_dipmeter=True, tables=True,
-              pairs=False, empty_passes=False, x_units=None, spacing_pairs=False):
+              pairs=False, empty_passes=False, x_units=None, spacing_pairs=False, mid_tables=False):
     """A whole LIS file model: [reel/tape header] (file header, tables, log pass, tables, file trailer)+ [tape/reel trailer]."""
     cfg = draw(phys_cfgs(tif_options=tif_options))
     if cfg['pr_len'] < 16:
@@ -586,7 +586,12 @@ def lis_files(draw, max_passes=3, max_frames=60, tif_options=('none', 'normal', 
             order = draw(st.lists(st.booleans(), min_size=len(a['per_record']) + len(b['per_record']), max_size=len(a['per_record']) + len(b['per_record'])))
             items.append(('pass_pair', {'a': a, 'b': b, 'order': order, 'b_first': draw(st.booleans())}))
         else:
-            items.append(('pass', draw(log_passes(max_frames=max_frames, allow_dipmeter=allow_dipmeter, x_units=x_units, spacing_pairs=spacing_pairs))))
+            lp_ = draw(log_passes(max_frames=max_frames, allow_dipmeter=allow_dipmeter, x_units=x_units, spacing_pairs=spacing_pairs))
+            if mid_tables and len(lp_['per_record']) >= 2 and draw(st.integers(0, 3)) == 0:
+                where = draw(st.integers(1, len(lp_['per_record']) - 1))
+                lp_ = dict(lp_, mid_tables=[[where, {'lr_type': 34, 'name': draw(st.sampled_from([b'CONS', b'CONS', b'TOOL', b'OUTP'])), 'columns': [b'MNEM', b'VALU'],
+                                                     'rows': [[{'v': draw(mnems()), 'u': None}, {'v': draw(st.integers(0, 1000)), 'u': draw(UNITS4)}]]}]])
+            items.append(('pass', lp_))
         if tables and draw(st.integers(0, 3)) == 0:
             items.append(('table', {'lr_type': 34, 'name': b'CONS', 'columns': [b'MNEM', b'VALU'], 'rows': []}))
         if draw(st.integers(0, 9)) != 0:
@@ -644,7 +649,11 @@ def build_lis_file(case):
             listing.append((len(lrs), 'pass', LR_DFSR, None))
             p = {'lp': payload, 'dfsr_lr': len(lrs), 'data_lrs': []}
             lrs.append(recs[0])
-            for r, (f0, n) in zip(recs[1:], info):
+            mid = dict((int(k), t) for k, t in (payload.get('mid_tables') or []))
+            for j, (r, (f0, n)) in enumerate(zip(recs[1:], info)):
+                if j in mid:    # a table written between the data records of the pass (e.g. a change of constants while logging)
+                    listing.append((len(lrs), 'table', mid[j]['lr_type'], mid[j]['name']))
+                    lrs.append(encode_table_lr(mid[j]))
                 p['data_lrs'].append((len(lrs), f0, n))
                 lrs.append(r)
             passes.append(p)
